@@ -20,10 +20,10 @@ Definition axis_off (l r s : Q) : Q := (r - l - inject_Z (axis_n l r s - 1) * s)
 Fixpoint lin (a step : Q) (k : Z) (n : nat) : list Q :=
   match n with
   | O => []
-  | S m => (a + inject_Z k * step) :: lin a step (k + 1) m
+  | S m => Qred (a + inject_Z k * step) :: lin a step (k + 1) m
   end.
 Definition linspace (a b : Q) (n : Z) : list Q :=
-  if (n =? 1)%Z then [a] else lin a ((b - a) / inject_Z (n - 1)) 0 (Z.to_nat n).
+  if (n =? 1)%Z then [a] else lin a (Qred ((b - a) / inject_Z (n - 1))) 0 (Z.to_nat n).
 
 (* one axis; None = numpy raises ValueError (negative number of samples) *)
 Definition axis (l r s : Q) : option (list Q) :=
@@ -144,6 +144,11 @@ Definition near_surface (band : Q) (ens : list (list qv)) (radii : list Q) (g : 
   existsb (fun atoms => existsb (fun ar => Qle_bool (Qabs (d2 (fst ar) g - snd ar * snd ar)) band) (combine atoms radii)) ens.
 
 (* ------------------------------------------------------------------ correspondence *)
+(* compact literals: points / numbers with a common (power-of-two) denominator *)
+Definition qpts (den : positive) (l : list (Z * Z * Z)) : list qv :=
+  map (fun p => let '(x, y, z) := p in (Qred (x # den), Qred (y # den), Qred (z # den))) l.
+Definition qnums (den : positive) (l : list Z) : list Q := map (fun x => Qred (x # den)) l.
+
 Inductive gcase :=
 | CGrid (r1 r2 : qv) (pad s tol : Q) (obs : option (list qv))
 | CNearest (band : Q) (ens : list (list qv)) (cut : Q) (grid : list qv) (obs : list (list Z))
